@@ -52,7 +52,8 @@ def globExpand (fs : Fs) : List Comp → List RPath → List RPath
 /-- `none` = malformed pattern (`[` without `]`) -/
 def globOne (fs : Fs) (pat : RPath) : Option (List RPath) :=
   if pat.comps.any (fun c => match c with | .name n => n.contains 91 && !n.contains 93 | _ => false) then none
-  else some (globExpand fs pat.comps [⟨pat.abs, [], false⟩])
+  -- a pattern spelled with a trailing `/` only matches directories (glob crate)
+  else some ((globExpand fs pat.comps [⟨pat.abs, [], false⟩]).filter fun p => !pat.trail || fs.isDir p)
 
 def expandSources (fs : Fs) (o : Opts) (pats : List RPath) : Except Reject (List RPath) :=
   if o.glob then
